@@ -1,5 +1,6 @@
 SPECIFICATION Spec
 CONSTANTS
+  Starts <- StartsBase
   Dev <- DevAsIs
   MaxRuns = 3
   FlowDef <- FlowsLib
